@@ -19,6 +19,8 @@ import (
 	"encoding/json"
 	"flag"
 	"fmt"
+	"io"
+	"log"
 	"os"
 	"runtime/debug"
 	"strconv"
@@ -90,7 +92,16 @@ func hasToken(op string) bool {
 // standingDenial: the case configures enriching / authorizing webhooks that apply to the request
 // (certType ALL, unset or the issued type) and answer allow=false whenever asked.
 func standingDenial(k *Case) bool {
-	return k.Deny && k.E+k.A > 0 && k.CT != "other" && k.Var != "badhook"
+	if !k.Deny || k.E+k.A == 0 || k.Var == "badhook" {
+		return false
+	}
+	switch k.CT {
+	case "other", "kindlower": // written for the other certificate type / with a kind the code does not know
+		return false
+	case "lower": // an unknown certType spelling: not consulted from ca.json, "ALL" once it went through the admin database
+		return strings.HasPrefix(k.Var, "admin")
+	}
+	return true
 }
 
 func failClosed(cl, got string, trace, ids []string, handedN, recordedN, rev, tok int, reuse string, noDB bool) string {
@@ -198,7 +209,9 @@ func runCase(k *Case) (res result) {
 		e.rec.stop()
 		plain := cls(e.do(q))
 		restart := "fail"
-		if ca2, err := e.ca.Restart(); err == nil {
+		if e.real { // the CA built from a configuration on disk is not restarted here
+			restart = "-"
+		} else if ca2, err := e.ca.Restart(); err == nil {
 			e.ca = ca2
 			restart = cls(e.do(q))
 		}
@@ -216,6 +229,11 @@ func runCase(k *Case) (res result) {
 	fc := failClosed(cl, r.got(), ev, ids, len(hs), nrec, rev, d("used_ott"), reuse, k.NoDB)
 	if cl == "ok" && standingDenial(k) { // a webhook that applies to the request says no, and the request succeeded
 		fc = "BROKEN"
+	}
+	if e.linked != nil && cl == "ok" { // a linked CA is configured: the records must have gone through it
+		if int(e.linked.stores.Load()) < len(hs) || (r.got() == "ack" && e.linked.revokes.Load() == 0) {
+			fc = "BROKEN"
+		}
 	}
 	out := fmt.Sprintf("%s got=%s tok=%d stored=%d data=%d rev=%d reuse=%s handed=%d recorded=%d fc=%s trace=%s", cl, r.got(),
 		d("used_ott"), stored, d("x509_certs_data"), rev, reuse, len(hs), nrec, fc, c.List(ev))
@@ -305,6 +323,34 @@ var scenarios = []scenario{
 	{Op: "sign", Deny: true, CT: "typed", A: 1}, {Op: "sign", Deny: true, CT: "other", E: 1, A: 1},
 	{Op: "sshsign", Deny: true, CT: "unset", A: 1}, {Op: "sshsign", Deny: true, CT: "typed", E: 1}, {Op: "sshsign", Deny: true, CT: "other", E: 1, A: 1},
 	{Op: "acme", Deny: true, CT: "unset", A: 1}, {Op: "scep", Deny: true, CT: "unset", A: 1}, {Op: "sshsignfull", Deny: true, CT: "unset", A: 1},
+	// spellings the code does not know: certType "x509" / "ssh", kind "authorizing"
+	{Op: "sign", CT: "lower", E: 1, A: 1}, {Op: "sign", Deny: true, CT: "lower", A: 1}, {Op: "sshsign", Deny: true, CT: "lower", A: 1},
+	{Op: "sign", Deny: true, CT: "kindlower", E: 1, A: 1}, {Op: "sign", Deny: true, CT: "kindlower", Var: "admin", A: 1},
+	// enableAdmin: provisioners (and their webhooks) go ca.json -> admin database (migration on the first start) -> back
+	{Op: "sign", Var: "admin", E: 1, A: 1}, {Op: "sign", Var: "admin", Deny: true, A: 1}, {Op: "sign", Var: "admin", Deny: true, CT: "unset", E: 1},
+	{Op: "sign", Var: "admin", Deny: true, CT: "typed", A: 1}, {Op: "sign", Var: "admin", Deny: true, CT: "other", A: 1},
+	{Op: "sign", Var: "admin", Deny: true, CT: "lower", A: 1}, {Op: "sshsign", Var: "admin", Deny: true, CT: "lower", E: 1},
+	{Op: "sign", Var: "adminreboot", E: 1, A: 1}, {Op: "sign", Var: "adminreboot", Deny: true, CT: "unset", A: 1},
+	{Op: "sign", Var: "adminreload", Deny: true, A: 1}, {Op: "sshsign", Var: "adminreboot", Deny: true, E: 1},
+	{Op: "acme", Var: "adminreboot", Deny: true, A: 1}, {Op: "scep", Var: "adminreboot", CH: 1, N: 1}, {Op: "scep", Var: "admin", Deny: true, A: 1, CH: 1},
+	{Op: "sshrenew", Var: "adminreboot"}, {Op: "renew", Var: "adminreboot"}, {Op: "revoke", Var: "adminreload"},
+	// how the webhook client authenticates: bearer token, basic auth, its own client without TLS client certificate
+	{Op: "sign", Var: "bearer", E: 1, A: 1}, {Op: "sshsign", Var: "basic", E: 1, A: 1}, {Op: "sign", Var: "notlsauth", E: 1, A: 1},
+	{Op: "sign", Var: "notlsauth", Deny: true, A: 1}, {Op: "scep", Var: "bearer", A: 1, CH: 1},
+	// … and the same after the provisioner went through the admin database (every webhook field converted both ways)
+	{Op: "sign", Var: "adminrebootbearer", E: 1, A: 1}, {Op: "sign", Var: "adminrebootbasic", A: 1}, {Op: "sign", Var: "adminrebootnotlsauth", Deny: true, A: 1},
+	// a less used provisioner type (X5C): same signing path, its own webhooks
+	{Op: "signx5c", Chks: []int{1}}, {Op: "signx5c", E: 1, A: 1}, {Op: "signx5c", Deny: true, CT: "unset", A: 1},
+	// through the handler ca.New / Init assemble from a configuration on disk (routers, middleware, base context)
+	{Op: "sign", Var: "real", Chks: []int{0, 2}}, {Op: "renew", Var: "real"}, {Op: "rekey", Var: "real"}, {Op: "revoke", Var: "real"},
+	{Op: "revokemtls", Var: "real"}, {Op: "sshsign", Var: "real"}, {Op: "sshsignfull", Var: "real"}, {Op: "sshrenew", Var: "real"},
+	{Op: "sshrevoke", Var: "real"}, {Op: "revoke", Var: "real", CRL: true},
+	// the legacy route names
+	{Op: "renew", Var: "legacy"},
+	// a linked CA as adminDB: it keeps the records (store / revoke / revocation checks / certificate data)
+	{Op: "sign", Var: "linked", Chks: []int{2}}, {Op: "renew", Var: "linked"}, {Op: "rekey", Var: "linked"}, {Op: "revoke", Var: "linked"},
+	{Op: "revokemtls", Var: "linked"}, {Op: "sshsign", Var: "linked"}, {Op: "sshsignfull", Var: "linked"}, {Op: "sshrenew", Var: "linked"},
+	{Op: "sshrekey", Var: "linked"}, {Op: "sshrevoke", Var: "linked"}, {Op: "acme", Var: "linked"}, {Op: "scep", Var: "linked"},
 	// authority.enableAdmin with the local database (adminDB = nosql admin store, which stores no certificates)
 	{Op: "sign", Var: "admin"}, {Op: "renew", Var: "admin"}, {Op: "rekey", Var: "admin"}, {Op: "revoke", Var: "admin"},
 	{Op: "sshsign", Var: "admin"}, {Op: "sshrenew", Var: "admin"}, {Op: "sshrevoke", Var: "admin"}, {Op: "sshrenew", Var: "adminidentity"},
@@ -322,7 +368,7 @@ var scenarios = []scenario{
 }
 
 var srcFns = []string{"authorizeToken", "authorizeSign", "signX509", "authorizeRenew", "renewContext", "Revoke",
-	"signSSH", "SignSSHAddUser", "renewSSH", "rekeySSH", "Finalize", "FinalizeOrder", "PKIOperation", "SignCSR", "Validate", "DoWithContext", "@signers", "@callers", "@scepTypes", "@storers", "@adminStore"}
+	"signSSH", "SignSSHAddUser", "renewSSH", "rekeySSH", "Finalize", "FinalizeOrder", "PKIOperation", "SignCSR", "Validate", "DoWithContext", "@signers", "@callers", "@scepTypes", "@storers", "@adminStore", "@hookControllers", "@routes"}
 
 func runAll(ks []*Case, workers int) []result {
 	out := make([]result, len(ks))
@@ -353,6 +399,7 @@ func main() {
 	workers := flag.Int("workers", 12, "parallel cases")
 	only := flag.String("op", "", "restrict to one operation (debugging)")
 	flag.Parse()
+	log.SetOutput(io.Discard) // the repository logs start-up messages through the default logger
 	o, err := c.NewOut(*outp)
 	if err != nil {
 		fmt.Fprintln(os.Stderr, err)
@@ -421,8 +468,8 @@ func main() {
 	baseRes := emitAll(base)
 
 	// 3. faults
-	rng := c.NewRng(c.Seed())
 	i0 := int(c.Seed() % 7) // which realisation goes with which position varies with the seed
+	rng := c.NewRng(c.Seed())
 	var ks []*Case
 	for i, s := range scs {
 		tr := baseRes[i].trace
@@ -431,14 +478,26 @@ func main() {
 		for _, chk := range s.Chks {
 			ks = append(ks, s.newCase(chk))
 		}
-		// every position, every kind
+		// configuration variants of an operation already enumerated in full: in the quick tier single
+		// faults only, one realisation per outcome kind (rotating with position and seed)
+		variant := s.CT != "" || s.Deny || s.Var != "" // a configuration variant of an operation enumerated in full
+		light := !*pairs && variant
+		// every position, every kind (every realisation)
 		for p, ev := range tr {
-			for _, f := range faultKinds(stepOf(ev)) {
-				ks = append(ks, mk(at(p, f)))
+			all := faultKinds(stepOf(ev))
+			cnt, idx := map[string]int{}, map[string]int{}
+			for _, f := range all {
+				cnt[f.Kind]++
+			}
+			for _, f := range all {
+				i := idx[f.Kind]
+				idx[f.Kind]++
+				if !light || i == (p+i0)%cnt[f.Kind] {
+					ks = append(ks, mk(at(p, f)))
+				}
 			}
 		}
 		// a webhook attempt that fails retryably is followed by a second attempt at p+1
-		light := !*pairs && (s.CT != "" || s.Deny || strings.HasPrefix(s.Var, "admin")) // configuration variants: single faults only in quick
 		for p, ev := range tr {
 			if light {
 				break
@@ -470,7 +529,7 @@ func main() {
 			ks = append(ks, s.newCase(s.Chks[len(s.Chks)-1], at(0, Fault{Kind: "timeout"})))
 		}
 		// pairs of positions (positions after the first fault may name different calls, or none)
-		if *pairs {
+		if *pairs && !variant { // all pairs for the base configurations; variants get singles, retries and a sample
 			for p1 := range tr {
 				for p2 := p1 + 1; p2 <= len(tr); p2++ {
 					k2 := "enrich"
@@ -485,6 +544,9 @@ func main() {
 				}
 			}
 		} else if len(tr) > 1 && !light {
+			if *pairs && *n == 0 {
+				*n = 40
+			}
 			for j := 0; j < *n; j++ {
 				p1 := rng.Intn(len(tr))
 				p2 := rng.Intn(len(tr) + 1)
